@@ -80,6 +80,9 @@ pub enum Step {
     FireStashed,
     /// keep the body busy for a few microseconds (widens the window after a wake that landed during the poll)
     Pause,
+    /// (last step of a future body) the future keeps its state - and with it the borrow of the value - after it has returned Ready,
+    /// until the future object itself is dropped: a hand-written future, or a guard captured by a poll_fn closure
+    Retain,
 }
 
 #[derive(Clone, Debug)]
@@ -271,7 +274,7 @@ impl Program {
             h = hcomb(h, op.kind.code() * 1000 + op.disp.code() * 10 + op.obj as u64);
             for s in &op.body {
                 h = hcomb(h, match s { Step::Touch => 1, Step::Yield => 2, Step::Gate(g) => 100 + *g as u64, Step::Nest(o) => 1000 + *o as u64,
-                                       Step::Hold(x) => 50 + *x as u64, Step::Panic => 3, Step::DropMortal => 4, Step::WakeOnly => 5, Step::StashWaker => 6, Step::FireStashed => 7, Step::Pause => 8 });
+                                       Step::Hold(x) => 50 + *x as u64, Step::Panic => 3, Step::DropMortal => 4, Step::WakeOnly => 5, Step::StashWaker => 6, Step::FireStashed => 7, Step::Pause => 8, Step::Retain => 9 });
             }
         }
         for t in &self.threads {
